@@ -23,7 +23,7 @@ function is `concreteRun` in lean/GrogModel/Drv/Build.lean.
 import copy, hashlib, json, os, shutil, subprocess, fnmatch
 from concurrent.futures import ThreadPoolExecutor
 
-ALL_FIXES = {"gateChecks": True, "syncTaint": True, "rerunOnce": True, "alias": True}
+ALL_FIXES = {"gateChecks": True, "syncTaint": True, "rerunOnce": True, "minValidate": True, "alias": True}
 
 
 # ------------------------------------------------------------------------------------------------
@@ -429,9 +429,12 @@ def run_real(grog, hist, base, force_minimal=None, upto=None):
                 except FileNotFoundError:
                     pass
         elif s["k"] == "build":
+            pre = {p: read_path(wsdir, p) for p in watch}
+            pre_taint = taints(root_dir)
             rc, out = run_grog(grog, wsdir, root_dir, trace, build_args(s, force_minimal))
             ex, pos = read_trace(trace, pos)
             obs.append({"ok": rc == 0, "rc": rc, "executed": ex, "fs": {p: read_path(wsdir, p) for p in watch},
+                        "pre": pre, "pre_tainted": pre_taint,
                         "tainted": taints(root_dir), "log": out[-1500:]})
     return obs
 
@@ -497,7 +500,7 @@ def model_request(hist, fixes=ALL_FIXES, force_minimal=None):
             minimal = s.get("minimal", False) if force_minimal is None else force_minimal
             steps.append({"k": "build", "enableCache": s.get("enable_cache", True), "minimal": minimal,
                           "order": selected(ws, s["patterns"]), "watch": watch, "labels": sorted(ws["targets"])})
-    return {"op": "build.simulate", "fx": {k: fixes[k] for k in ("gateChecks", "syncTaint", "rerunOnce")},
+    return {"op": "build.simulate", "fx": {k: fixes[k] for k in ("gateChecks", "syncTaint", "rerunOnce", "minValidate")},
             "files": files, "steps": steps}
 
 
@@ -814,7 +817,7 @@ def shift_pair(rng, ws):
     return None
 
 
-def gen_history(rng, family="mixed", nsteps=None):
+def gen_history(rng, family="mixed", nsteps=None, full=False, minimal=None):
     """family: mixed | edits | tamper | taint | nocache | disabled | checks | minimal"""
     kw = {}
     if family in ("nocache", "taint", "minimal-nocache"):
@@ -824,12 +827,12 @@ def gen_history(rng, family="mixed", nsteps=None):
     ws = gen_ws(rng, **kw)
     hist = {"ws": ws, "algo": rng.choice(["xxh3", "sha256"]), "steps": [], "tags": [family]}
     cur = ws
-    minimal = family.startswith("minimal")
+    minimal = family.startswith("minimal") if minimal is None else minimal
 
     def build(patterns=None, **fl):
         if patterns is None:
             r = rng.random()
-            if r < 0.6:
+            if r < 0.6 or full:
                 patterns = ["//..."]
             else:
                 l = rng.choice(sorted(cur["targets"]))
@@ -839,6 +842,13 @@ def gen_history(rng, family="mixed", nsteps=None):
         hist["steps"].append(st)
     build(["//..."] if rng.random() < 0.7 else None)
     n = nsteps or rng.randint(2, 5)
+    if family == "cutoff":
+        for _ in range(n):
+            e = gen_edit(rng, cur, ["fp"])
+            hist["steps"].append({"k": "edit", "ws": e[0], "writes": e[1], "what": e[2]})
+            cur = e[0]
+            build()
+        return hist
     for _ in range(n):
         r = rng.random()
         if family == "tamper" and r < 0.6:
@@ -1151,3 +1161,70 @@ def replay_history(ctx, rep, fixes=ALL_FIXES):
     for f in fails:
         print("  CLEAN-BUILD ORACLE FAILS:", f["build"], f["path"], repr(f["incremental"])[:200], "vs", repr(f["clean"])[:200])
     return 1 if (r["diffs"] or fails) else 0
+
+
+# ------------------------------------------------------------------------------------------------
+# model-independent helpers for the C02 / C13 / C14 oracles
+# ------------------------------------------------------------------------------------------------
+
+def tkey(ws, l):
+    """everything of a target that enters its own key (not its dependencies' outputs)"""
+    t = ws["targets"][l]
+    pre = t["pkg"] + "/" if t["pkg"] else ""
+    ins = [(r, ws["files"].get(pre + r)) for r in resolved_inputs(ws, l)]
+    return json.dumps([cmd_text(ws, l), ins, [(o["dir"], o["rel"]) for o in sorted_outs(t)], sorted(t.get("fp", {}).items()),
+                       rdeps(ws, l), bool(t.get("nocache")), t.get("checks", [])], sort_keys=True)
+
+
+def descendants(ws, roots):
+    out = set(roots)
+    changed = True
+    while changed:
+        changed = False
+        for l in ws["targets"]:
+            if l not in out and any(d in out for d in rdeps(ws, l)):
+                out.add(l)
+                changed = True
+    return out
+
+
+def touched(ws_a, ws_b):
+    """targets whose own definition / input contents differ between two versions of the sources (or are new)"""
+    return {l for l in ws_b["targets"] if l not in ws_a["targets"] or tkey(ws_a, l) != tkey(ws_b, l)}
+
+
+def check_holds(chk, fs):
+    v = fs.get(chk["flag"])
+    if v is None:
+        return False
+    return chk["exp"] is None or v.strip() == chk["exp"].strip()
+
+
+def walk(hist, real):
+    """iterate builds with context: yields dict(n, step, ws, obs, prev (previous build record or None),
+    taints_since (patterns tainted since the previous build), edits_since (list of (ws_before, ws_after, what, writes)))"""
+    ws = hist["ws"]
+    obs = [o for o in real if "ok" in o]
+    n = 0
+    prev = None
+    tp, es = [], []
+    for s in hist["steps"]:
+        if s["k"] == "edit":
+            es.append((ws, s["ws"], s.get("what", ""), s.get("writes", [])))
+            ws = s["ws"]
+        elif s["k"] == "taint":
+            tp += s["patterns"]
+        elif s["k"] == "build":
+            if n >= len(obs):
+                return
+            rec = {"n": n, "step": s, "ws": ws, "obs": obs[n], "prev": prev, "taints_since": tp, "edits_since": es}
+            yield rec
+            prev = rec
+            tp, es = [], []
+            n += 1
+
+
+def summary_numbers(log):
+    import re
+    m = re.search(r"(\d+) targets? completed \((\d+) cache hits?\)", log)
+    return (int(m.group(1)), int(m.group(2))) if m else None
